@@ -104,6 +104,18 @@ def sessions_for(res):
                                    ["set_mathml", X.math(rng.choice(RARE))], ["get_spoken_text"], ["get_braille", ""], ["set_preference", "Language", l1]],
                             rng.choice([STYLE_SENSITIVE, STYLE_SENSITIVE, paren] + RARE)))
     out += definition_probes(rng, tier)
+    # the next expression reuses the author ids of the one before on a different structure (what an editor does): nothing
+    # remembered under an id may carry over
+    same_ids = [("<mfrac id='f'><mfrac id='g'><mi id='a'>a</mi><mi id='b'>b</mi></mfrac><mi id='c'>c</mi></mfrac>", "<mfrac id='f'><mi id='a'>x</mi><mi id='b'>y</mi></mfrac>"),
+                ("<msqrt id='f'><msqrt id='g'><mi id='a'>a</mi></msqrt></msqrt>", "<msqrt id='f'><mi id='a'>x</mi></msqrt>"),
+                ("<msup id='f'><mi id='a'>x</mi><msup id='g'><mi id='b'>y</mi><mn id='c'>2</mn></msup></msup>", "<msup id='f'><mi id='a'>x</mi><mn id='g'>2</mn></msup>"),
+                ("<mrow id='r'><mi id='a'>sin</mi><mo id='o'>&#x2061;</mo><mi id='b'>x</mi></mrow>", "<mrow id='r'><mi id='a'>x</mi><mo id='o'>+</mo><mn id='b'>12</mn></mrow>"),
+                ("<mtable id='f'><mtr id='g'><mtd id='a'><mn id='b'>1</mn></mtd><mtd id='c'><mn id='d'>2</mn></mtd></mtr></mtable>", "<mfrac id='f'><mn id='b'>1</mn><mn id='d'>2</mn></mfrac>")]
+    for a, b in same_ids:
+        for code in ("Nemeth", "UEB", "CMU"):
+            for first, second in ((a, b), (b, a)):
+                out.append(([["set_preference", "BrailleCode", code], ["set_mathml", X.math(first)], ["get_braille", ""], ["get_spoken_text"], ["do_navigate_command", "ZoomIn"],
+                             ["get_navigation_braille"], ["get_overview_text"]], second))
     for body in RARE[3:6]:
         for k, vs in PREFS[4:6] + PREFS[:1]:
             for v in vs:
